@@ -213,7 +213,7 @@ func runC08(r *ev.Run) {
 	r.Assumptions = []string{"background flush interleavings are whatever the scheduler produces; the oracle (visibility) does not depend on them", "a Remove that returns an error removes nothing from the model (removal is documented to reach the writable memtable only)"}
 	n := r.Pick(120, 2500)
 	r.CasesParallel("history", n, 8, func(ci int, rng *rand.Rand) {
-		p := genStoreParams(rng, []string{"flat", "flat", ""})
+		p := genStoreParams(rng, []string{"flat", "flat", "", "flat", "pq", "ivfpq"})
 		p.CompactionThreshold = 2 + rng.IntN(4)
 		background := ci%3 == 0
 		if background {
@@ -230,7 +230,7 @@ func runC08(r *ev.Run) {
 			return
 		}
 		defer s.Close()
-		ref, _ := newHybridSUT(p.VecKind != "", p.Text, p.Meta, p.Dim, p.Metric)
+		ref, _ := newHybridSUT(p.VecKind == "flat", p.Text, p.Meta, p.Dim, p.Metric)
 		m := newStoreModel()
 		var log []string
 		dead := false
@@ -253,7 +253,7 @@ func runC08(r *ev.Run) {
 		probe := func(when string) {
 			checkStoreVisibility(rep, r, s, p, m, when)
 			checkStoreVisibility(rep, r, s, p, m, when+"-second-search")
-			if p.VecKind != "" && !dead {
+			if p.VecKind == "flat" && !dead {
 				// vector-only id set == one in-memory hybrid index holding the same live documents
 				q := make([]float32, p.Dim)
 				for i := range q {
@@ -514,6 +514,9 @@ func runC08(r *ev.Run) {
 						for j := range sample[i] {
 							sample[i][j] = float32(rng.NormFloat64())
 						}
+					}
+					if p.VecKind != "flat" && p.VecKind != "" {
+						sample = clone2D(p.ivfTrain) // a kind that really trains: the same data again (changes nothing)
 					}
 					err := s.Train(sample)
 					log = append(log, fmt.Sprintf("Train -> %v", err))
